@@ -3,7 +3,7 @@ package props
 import (
 	"fmt"
 	"runtime"
-		"strings"
+	"strings"
 
 	"github.com/alttpo/snes/asm"
 
